@@ -264,6 +264,7 @@ func ruleSplit(c *Ctx) {
 		fns = append(fns, s)
 	}
 	c.atLeast("record splitters (bufio.SplitFunc methods)", len(fns), 4)
+	nLeftmost := 0
 	for _, s := range fns {
 		fn := s.fn
 		name := strings.TrimSuffix(strings.TrimPrefix(fnKey(fn), "("), ")")
@@ -510,7 +511,13 @@ func ruleSplit(c *Ctx) {
 				// start) but needs bytes that have not arrived yet is invisible to it. Nothing the Find* result
 				// offers can rule that out, so a record delivered from such a match before end of input depends on
 				// where the reads fell.
-				c.bad(fmt.Sprintf("leftmost:%s", name), t.ret.Pos(), "%s commits the leftmost regexp match found in the bytes read so far while more input may follow: with an RS whose alternatives overlap (RS=\"abcd|b\"), a longer alternative that starts earlier and is still incomplete at the end of the buffered data is overtaken by a shorter one inside it, so the records and RT depend on read boundaries (`xabc`+`dy` gives xa/RT=b, unchunked gives x/RT=abcd)", name)
+				// keyed by role, not by name: the first splitter that does this is the recorded one wherever it lives
+				nLeftmost++
+				lk := "leftmost:regexp-record-splitter"
+				if nLeftmost > 1 {
+					lk += fmt.Sprintf("#%d", nLeftmost)
+				}
+				c.bad(lk, t.ret.Pos(), "%s commits the leftmost regexp match found in the bytes read so far while more input may follow: with an RS whose alternatives overlap (RS=\"abcd|b\"), a longer alternative that starts earlier and is still incomplete at the end of the buffered data is overtaken by a shorter one inside it, so the records and RT depend on read boundaries (`xabc`+`dy` gives xa/RT=b, unchunked gives x/RT=abcd)", name)
 			}
 			key := fmt.Sprintf("munch:%s:record-return#%d", name, i+1)
 			ak := srcKey(a, 0)
@@ -840,18 +847,63 @@ func (s *splitFn) coord(c *Ctx, name string) {
 			}
 		}
 	}
+	// when `advance` is not captured by a closure it has no cell: the slice expressions whose bounds mention the named
+	// result are then found on the syntax tree and matched to their instructions by position
+	astAdv := map[token.Pos][2]bool{}
+	if fd, ok := fn.Syntax().(*ast.FuncDecl); ok && fd.Type.Results != nil && c.pkg("interp") != nil {
+		info := c.pkg("interp").TypesInfo
+		var advObj types.Object
+		for _, f := range fd.Type.Results.List {
+			for _, nm := range f.Names {
+				if nm.Name == "advance" {
+					advObj = info.Defs[nm]
+				}
+			}
+		}
+		mentions := func(e ast.Expr) bool {
+			found := false
+			if e == nil || advObj == nil {
+				return false
+			}
+			ast.Inspect(e, func(n ast.Node) bool {
+				if id, ok := n.(*ast.Ident); ok && info.Uses[id] == advObj {
+					found = true
+				}
+				return true
+			})
+			return found
+		}
+		ast.Inspect(fd, func(n ast.Node) bool {
+			if se, ok := n.(*ast.SliceExpr); ok {
+				astAdv[se.Lbrack] = [2]bool{mentions(se.Low), mentions(se.High)}
+			}
+			return true
+		})
+	}
+	advUse := func(v ssa.Value, sl *ssa.Slice, high bool) bool {
+		if v == nil {
+			return false
+		}
+		if u, ok := v.(*ssa.UnOp); ok && u.Op == token.MUL && advCell != nil && u.X == ssa.Value(advCell) {
+			return true
+		}
+		if advCell == nil {
+			if m, ok := astAdv[sl.Pos()]; ok {
+				if high {
+					return m[1]
+				}
+				return m[0]
+			}
+		}
+		return false
+	}
 	n := 0
 	allInstrs(fn, func(in ssa.Instruction) {
 		sl, ok := in.(*ssa.Slice)
 		if !ok {
 			return
 		}
-		usesAdv := false
-		for _, v := range []ssa.Value{sl.Low, sl.High} {
-			if u, ok := v.(*ssa.UnOp); ok && u.Op == token.MUL && advCell != nil && u.X == ssa.Value(advCell) {
-				usesAdv = true
-			}
-		}
+		usesAdv := advUse(sl.Low, sl, false) || advUse(sl.High, sl, true)
 		if usesAdv {
 			n++
 			key := "coord:" + name + ":slice-by-advance"
@@ -885,8 +937,8 @@ func (s *splitFn) coord(c *Ctx, name string) {
 	// the record-start offset (Low of the slice-by-advance) is fixed once parsing of the record has begun
 	var lowCell *ssa.Alloc
 	allInstrs(fn, func(in ssa.Instruction) {
-		if sl, ok := in.(*ssa.Slice); ok && advCell != nil {
-			if u, ok := sl.High.(*ssa.UnOp); ok && u.X == ssa.Value(advCell) {
+		if sl, ok := in.(*ssa.Slice); ok {
+			if advUse(sl.High, sl, true) {
 				if l, ok := sl.Low.(*ssa.UnOp); ok {
 					if a, ok := l.X.(*ssa.Alloc); ok {
 						lowCell = a
@@ -899,10 +951,10 @@ func (s *splitFn) coord(c *Ctx, name string) {
 		// the start offset is a plain SSA value: it is fixed where it is defined; that definition must precede field parsing
 		allInstrs(fn, func(in ssa.Instruction) {
 			sl, ok := in.(*ssa.Slice)
-			if !ok || advCell == nil || sl.Low == nil {
+			if !ok || sl.Low == nil {
 				return
 			}
-			if u, ok := sl.High.(*ssa.UnOp); !ok || u.X != ssa.Value(advCell) {
+			if !advUse(sl.High, sl, true) {
 				return
 			}
 			def, ok := sl.Low.(ssa.Instruction)
